@@ -607,6 +607,7 @@ CallAtomic(h, name, args) ==
         IF n < 2 \/ n > 3 THEN R(h, ArityErr)
         ELSE LET k2 == KeyCast(h, a1, a2) IN
              IF KeyCastFailed(k2) THEN R(h, k2)
+             ELSE IF a1.t = "dict" /\ Dev("MutGetNoCast") /\ a2.t # "str" THEN R(h, a3)      \* specification mutant (non-vacuity of C14)
              ELSE IF a1.t = "dict" THEN R(h, IF DHas(Items(h, a1), k2.s) THEN DGet(Items(h, a1), k2.s) ELSE a3)
              ELSE R(h, OtherErr("AttributeError"))
     [] name = "__getitem__" -> IF n # 2 THEN R(h, ArityErr) ELSE GetItem(h, a1, a2)
